@@ -28,7 +28,9 @@ def run(rep, tier, seed):
         run_vh(["c14-exec", "-out", ev, "-n", str(n)], env={"VERIF_SEED": str(seed)}, timeout=3000)
         j = validate(w, ev)
         rows = read_ndjson(ev)
-        for b in j["bad"][:200]:
+        for b in j["bad"]:
+            if len(rep.violations) >= 200:
+                break
             e = rows[b["i"] - 1]
             why = sorted(b["why"])
             rep.violation({"key": "%s-%s" % ("+".join(why)[:50], hashlib.md5(e["src"].encode()).hexdigest()[:6]), "kind": "c14",
